@@ -1,5 +1,6 @@
 SPECIFICATION Spec
 CONSTANT DevAstralFiveHex = TRUE
+CONSTANT FuncTable <- MCFuncTable
 INVARIANT Total
 INVARIANT WrongType
 INVARIANT Laws
